@@ -219,6 +219,57 @@ func scenarios() []scenario {
 	// S5 one thread constructs while another parses an already built shared grammar
 	sc = append(sc, scenario{name: `S5 construction || parse of a shared grammar`, bound: [2]int{2, 3},
 		threads: func() []job { return []job{constructJob("ayx"), parseJob(hidden, "abb", 1)} }})
+	// S8 construction from a caller-owned list: two threads build Choice / Any / SeqOf parsers from ONE slice of
+	// alternatives (spare capacity) and parse with them; afterwards the list must read as before. Constructors may
+	// only read their arguments (the race pass sees a write even when it stores the value that is already there).
+	sc = append(sc, scenario{name: `S8 two threads construct Choice/Any/SeqOf from one caller-owned list of alternatives`, bound: [2]int{2, 3}, post: true,
+		threads: func() []job {
+			r := terminal.Rune
+			alts := make([]parsley.Parser, 0, 8)
+			alts = append(alts, r('a'), r('b'), r('c'))
+			orig := append([]parsley.Parser{}, alts...)
+			build := func(input string) job {
+				return func(pt func()) string {
+					pt()
+					c := combinator.Choice(alts...)
+					pt()
+					a := combinator.Any(alts...)
+					pt()
+					root := combinator.Sentence(combinator.SeqOf(c, a, combinator.SeqOf(alts...)))
+					pt()
+					f := text.NewFile("f", []byte(input))
+					ctx := parsley.NewContext(parsley.NewFileSet(f), text.NewReader(f))
+					n, err := parsley.Parse(ctx, root)
+					return fmt.Sprintf("tree=%s err=%v calls=%d", impl.Render(n, 1), err, ctx.CallCount())
+				}
+			}
+			return []job{build("ababc"), build("cbab"), func(func()) string {
+				for i := range orig {
+					if fmt.Sprintf("%p", alts[i]) != fmt.Sprintf("%p", orig[i]) {
+						return fmt.Sprintf("slot %d of the caller's list was rewritten", i)
+					}
+				}
+				return "the caller's list reads as before"
+			}}
+		}})
+	// S9 two runs over the SAME input bytes (each with its own file, file set, reader and context): creating a file
+	// must not write into the caller's buffer. The expected observation is taken from a private copy of the bytes.
+	{
+		const doc = "1+\r\n2"
+		w := evalJob(func() parsley.Parser { return arith }, doc)(nil)
+		sc = append(sc, scenario{name: `S9 two runs over the same input bytes "1+\r\n2" (CRLF), each with its own file and context`, bound: [2]int{1, 2},
+			want: []string{w, w},
+			threads: func() []job {
+				raw := []byte(doc)
+				run := func(func()) string {
+					f := text.NewFile("f", raw)
+					ctx := parsley.NewContext(parsley.NewFileSet(f), text.NewReader(f))
+					v, err := parsley.Evaluate(ctx, arith)
+					return fmt.Sprintf("value=%#v err=%v calls=%d", v, err, ctx.CallCount())
+				}
+				return []job{run, run}
+			}})
+	}
 	return sc
 }
 
